@@ -153,6 +153,12 @@ def enumerate_cases(tier):
         {"op": "ctrl", "base": {"op": "pow", "base": {"op": "T", "p": [], "w": [1]}, "z": 3}, "cw": [2], "cv": [0]},
         {"op": "ctrl", "base": {"op": "IsingXX", "p": [0.6], "w": [1, 2]}, "cw": [0], "cv": [0]},
     ]
+    # controlled products of non-commuting factors with zeroed / borrowed work wires (ladder rules must apply the factors in
+    # operator order) - on six wires, graph on
+    NC = {"op": "prod", "operands": [{"op": "RX", "p": [0.7], "w": [0]}, {"op": "RY", "p": [0.4], "w": [0]}, {"op": "Hadamard", "p": [], "w": [0]}]}
+    wide = [{"op": "ctrl", "base": NC, "cw": cw, "cv": cv, "ww": ww, "wwt": wwt}
+            for cw, cv, ww in (([1, 2], [1, 1], [4]), ([1, 2, 3], [1, 1, 1], [4, 5]), ([1, 2, 3], [1, 0, 1], [4, 5]), ([1, 2, 3], [1, 1, 1], [4]))
+            for wwt in ("zeroed", "borrowed")]
     sets = [{"names": ["CNOT", "GlobalPhase", "RX", "RY", "RZ"], "form": "str"},
             {"names": ["CNOT", "GlobalPhase", "RX", "RY", "S"], "form": "type"}]
     for op in singles:
@@ -160,11 +166,32 @@ def enumerate_cases(tier):
             for gs in (sets if graph else sets[:1]):
                 yield {"wires": [0, 1, 2, 3], "ops": [op], "graph": graph, "gs": gs, "stop": None, "maxexp": None, "nww": 0, "minww": False,
                        "strict": True, "fixed": None, "alt": None, "meas": []}
+    for op in wide:
+        for gs in sets + [{"names": ["CNOT", "Toffoli", "GlobalPhase", "RX", "RY", "RZ"], "form": "str"}]:
+            yield {"wires": [0, 1, 2, 3, 4, 5], "ops": [op], "graph": True, "gs": gs, "stop": None, "maxexp": None, "nww": 0, "minww": False,
+                   "strict": True, "fixed": None, "alt": None, "meas": []}
 
 
 # ---------------------------------------------------------------------------------------------
 # helpers
 # ---------------------------------------------------------------------------------------------
+
+def _zeroed_work_wires(ops):
+    out = []
+    for o in ops:
+        if isinstance(o, dict):
+            if o.get("wwt") == "zeroed":
+                out += list(o.get("ww") or [])
+            kw = o.get("kw") or {}
+            if kw.get("work_wire_type") == "zeroed":
+                out += list(kw.get("work_wires") or [])
+            for k in ("base", "compute", "target", "uncompute"):
+                if isinstance(o.get(k), dict):
+                    out += _zeroed_work_wires([o[k]])
+            if isinstance(o.get("operands"), list):
+                out += _zeroed_work_wires(o["operands"])
+    return out
+
 
 def _resolve_gate_set(gs):
     """-> (argument for decompose, set of canonical names)."""
@@ -409,7 +436,15 @@ def check(spec):
         V = sim.unitary(res_ops, order + aux)
         d, a = 2 ** len(order), 2 ** len(aux)
         V4 = V.reshape(d, a, d, a)
-        err = float(np.abs(V4[:, 0, :, 0] - U0).max())
+        # operator-level work wires declared "zeroed" are promised to be |0> on input: the decomposition has to agree with the operator
+        # (and restore them) on that subspace only
+        zw = _zeroed_work_wires(spec["ops"])
+        if zw:
+            pos_z = [order.index(w) for w in {specs.wire(w) for w in zw} if w in order]
+            cols = [i for i in range(d) if all(not (i >> (len(order) - 1 - p)) & 1 for p in pos_z)]
+            err = float(np.abs(V4[:, 0, :, 0][:, cols] - U0[:, cols]).max())
+        else:
+            err = float(np.abs(V4[:, 0, :, 0] - U0).max())
         leak = float(np.abs(V4[:, 1:, :, 0]).max()) if a > 1 else 0.0
         if not err <= TOL or not leak <= TOL:
             raise Viol("unitary-changed", f"{mode}: max|V-U|={err:.3e} aux-leak={leak:.3e} ops={spec['ops']} gs={sorted(names)[:12]} "
